@@ -6,7 +6,7 @@ from __future__ import annotations
 import ast
 import typing as t
 
-from .load import AnalysisError, Cls, Func, Repo, strip_docstring, unparse
+from .load import AnalysisError, Cls, Func, Repo, strip_docstring, unparse  # noqa: F401
 from .sym import Lin, Ref, SBytes, Seg, SObj, SStr, STuple, Unknown
 from .symeval import BoolVal, Evaluator, Read, ReadVal, State, SView, TRef, Unsupported, parse_type, typed_value
 
